@@ -12,10 +12,12 @@ import (
 	"verifharness/lib/c16"
 	"verifharness/lib/c18"
 	"verifharness/sl/c05"
+	"verifharness/sl/c09"
 )
 
 var cmds = map[string]func([]string) int{
 	"C05": c05.Main,
+	"C09": c09.Main,
 	"C12": c12.Main,
 	"C14": c14.Main,
 	"C16": c16.Main,
